@@ -12,7 +12,7 @@ META = {
             "once, never stored in Server or across an await; W3 the lock-order graph over all locks of crate glas is acyclic; W4 the "
             "change is applied to the analysis host before diagnostics are recomputed, the snapshot is taken before the previous "
             "task is replaced, closed documents get empty diagnostics; W5 cancellation is requested before inputs are written. "
-            "One obligation per guard acquisition / call site. W7 the document store is written only after cancellation was requested (no reader pairs an old analysis with the new line map); W8 = C12/K4 over the handlers. W9 a cancelling handler recomputes all diagnostics on every path; W10 = C13/D9; W11 = C13/D10; W12 a cancelled diagnostics computation hands no list to the publisher.",
+            "One obligation per guard acquisition / call site. W7 the document store is written only after cancellation was requested (no reader pairs an old analysis with the new line map); W8 = C12/K4 over the handlers. W9 a cancelling handler recomputes all diagnostics on every path; W10 = C13/D9; W11 = C13/D10; W12 a cancelled diagnostics computation hands no list to the publisher; W14 = C13/D2 (convergence to the client's text needs every change converted against the text after the previous one). W13 code that runs off the main loop locks the document store only while it holds a snapshot.",
     "explanation": "The two-lock discipline ('never wait for snapshots while holding the document store') is documented in "
                    "comments only. MIR makes guard lifetimes explicit (the unwrap that yields the guard, mem::drop, Drop "
                    "terminators, moves), so the regions in which a guard is live are computed exactly per function and every call "
@@ -47,6 +47,8 @@ def run(F, res, tier):
     from rules import c13 as _c13lm
     _c13lm.line_map_coordinates_agree(F, res, rule="W11")
     cancelled_computation_publishes_nothing(F, res)
+    _c13lm.edits_use_the_current_line_map(F, res, rule="W14")
+    store_is_read_off_the_loop_only_under_a_snapshot(F, res, LK.LockFacts(F))
 
 
 def lock_rules(F, res, w1="W1", w3="W3"):
@@ -392,3 +394,60 @@ def cancelled_computation_publishes_nothing(F, res, rule="W12"):
                    "a cancellation (a cancelled computation publishes nothing: the task of the newer text may already have published)",
                    ok, where=f.loc(t["ln"]), how="Cancelled tests in this unit: %d; this call is dominated by the `no` edge of one: %s" % (len(tests), ok))
     res.analysed["replacement_lists_in_spawn_update_diagnostics"] = n
+
+
+def store_is_read_off_the_loop_only_under_a_snapshot(F, res, L, rule="W13"):
+    """W13: what pins the document store to the version a request was issued against is the snapshot: every handler that
+    modifies the store first calls request_cancellation(), which returns only when all snapshots are gone (W7). Code that runs
+    off the main loop (a closure handed to spawn_blocking / thread::spawn) is covered by that only if it holds a snapshot; the
+    main loop itself needs none (no other message is dispatched while it runs). So: nothing reachable from an off-loop closure
+    that captured no StateSnapshot / Analysis takes a lock of the store (functions that receive a snapshot as a parameter are
+    pinned by their caller's snapshot and end the search)."""
+    SPAWN = ("spawn_blocking", "thread::spawn", "Builder::spawn", "Handle::spawn_blocking")
+    SNAP = ("StateSnapshot", "ide::ide::Analysis", "salsa::Snapshot")
+    roots = []
+    for p, f in sorted(F.fns.items()):
+        if not p.startswith(("glas::", "<glas::", "[bin]")) or not f.blocks:
+            continue
+        d = None
+        for b, t in f.calls():
+            c = FL.short(callee(t) or callee_def(t) or "")
+            if not c.endswith(SPAWN) or not t["args"]:
+                continue
+            d = d or FL.Defs(f)
+            o = d.origin_op(t["args"][0])
+            if o.get("k") != "agg" or "closure" not in o["rv"]:
+                continue
+            caps = []
+            for op in o["rv"].get("ops", []):
+                pl = op.get("mv") or op.get("cp")
+                if pl:
+                    caps.append(f.local_ty(pl["l"]) if not pl["p"] else "?")
+            roots.append((f, t, o["rv"]["closure"], caps))
+    res.floor("closures handed to spawn_blocking / thread::spawn in crate glas", len(roots), 1)
+    vfs_sites = {}
+    for f, b, t, a in L.acq_sites:
+        if a[1].endswith("vfs::Vfs"):
+            vfs_sites.setdefault(f.path, []).append(t["ln"])
+    cg = F.callgraph()
+    for f, t, c, caps in roots:
+        pinned = any(any(s in ty for s in SNAP) for ty in caps)
+        hits = []
+        if not pinned:
+            seen, st = {c}, [c]
+            while st:
+                x = st.pop()
+                fx = F.fns.get(x)
+                if fx is None:
+                    continue
+                if x != c and any(any(s in (fx.local_ty(i) or "") for s in SNAP) for i in range(1, fx.d["arg_count"] + 1)):
+                    continue
+                for ln in vfs_sites.get(x, []):
+                    hits.append("%s:%d" % (FL.short(x), ln))
+                for y in cg.get(x, ()):
+                    if y not in seen:
+                        seen.add(y)
+                        st.append(y)
+        res.ob(rule, "off-loop/%s" % FL.short(c), "this closure runs off the main loop: it holds a snapshot, or nothing it reaches locks the document store "
+               "(a store read without a snapshot can see the text of a later edit)", pinned or not hits, where=f.loc(t["ln"]),
+               how="captures a snapshot" if pinned else ("locks the store without a snapshot at %s" % hits if hits else "no snapshot, and no lock of the store is reachable"))
